@@ -6,7 +6,7 @@
    loop invariants: cell-local loops (for_from_cell) for + / - / derivative, the row-by-row convolution invariant
    (conv_upto) for the product, a downward fold for Horner evaluation. *)
 From Coq Require Import List Arith ZArith Lia Bool.
-From OV Require Import Base.Panic Base.Arith Model.Vector Model.Poly gen.SrcPrelude gen.SrcPoly Proofs.SrcEqBase.
+From OV Require Import Base.Panic Base.Arith Model.Vector Model.Poly gen.Params gen.SrcPrelude gen.SrcPoly Proofs.SrcEqBase.
 Import ListNotations.
 Section SrcEqPoly.
 Context {A : Arith}.
@@ -284,5 +284,95 @@ Proof.
   unfold s_is_zero, is_zero, for_ret. rewrite Nat.sub_0_r.
   rewrite (for_ret_forallb p (fun c => eqb c zero)) by lia. cbn [skipn bind].
   destruct (forallb _ p); reflexivity.
+Qed.
+(* trim: the while loop pops trailing zeros; the model strips leading zeros of the reversed list *)
+Lemma trim_loop (r : list (T A)) fuel :
+  r <> [] -> length r <= fuel ->
+  while_ret (R := list (T A)) fuel (fun (s5 : list (T A) * nat) =>
+      let '(self_, i_) := s5 in
+      let* x2 := rd self_ i_ in
+      if (eqb x2 zero && (0 <? i_))%bool
+      then (let n3 := removelast self_ in let self_ := n3 in let* i_ := usub i_ 1 in Ok (WNext (self_, i_)))
+      else Ok (WDone (self_, i_))) (rev r, length r - 1)
+  = Ok (Some (inl (rev (trim_rev r), length (trim_rev r) - 1))).
+Proof.
+  revert fuel; induction r as [|c t IH]; intros fuel Hne Hf; [congruence|].
+  destruct fuel as [|fuel]; [cbn in Hf; lia|]. cbn [while_ret rev length].
+  replace (S (length t) - 1) with (length (rev t)) by (rewrite rev_length; lia).
+  rewrite rd_app_mid. cbn [bind]. rewrite rev_length.
+  destruct t as [|c2 t2].
+  - cbn. rewrite andb_false_r. reflexivity.
+  - cbn [length]. replace (0 <? S (length t2)) with true by reflexivity. rewrite andb_true_r.
+    cbn [trim_rev]. destruct (eqb c zero).
+    + cbv zeta. rewrite removelast_last. rewrite usub_ok by lia. cbn [bind].
+      replace (S (length t2) - 1) with (length (c2 :: t2) - 1) by reflexivity.
+      apply IH; [discriminate|cbn [length] in *; lia].
+    + cbn [bind rev length]. reflexivity.
+Qed.
+
+Lemma src_ptrim (p : list (T A)) : s_ptrim p = ptrim p.
+Proof.
+  unfold s_ptrim, ptrim. destruct p as [|a t]; [reflexivity|].
+  rewrite usub_ok by (cbn; lia). cbn [bind].
+  rewrite <- (rev_involutive (a :: t)) at 2. rewrite <- (rev_length (a :: t)).
+  rewrite trim_loop; [reflexivity| |lia].
+  intros E. apply (f_equal (@length _)) in E. rewrite rev_length in E. discriminate.
+Qed.
+
+(* ---- polydiv: `while !r.is_zero() && r.degree()? >= v.degree()?` with the code's own cap MAX (gen/Params.v) ---- *)
+Lemma upd_repeat_last (z c : T A) d : upd (repeat z (d + 1)) d c = Ok (repeat z d ++ [c]).
+Proof.
+  replace (repeat z (d + 1)) with (repeat z d ++ [z]) by (rewrite repeat_app; reflexivity).
+  rewrite <- (repeat_length z d) at 2. rewrite upd_app_mid'. reflexivity.
+Qed.
+
+Lemma is_zero_nil_false (r : list (T A)) : is_zero r = false -> r <> [].
+Proof. intros H ->. discriminate. Qed.
+
+(* the generic shape of the while loop of polydiv against the fuelled recursion of the model *)
+Lemma polydiv_loop_eq (BODY : list (T A) * list (T A) * nat -> res (wout (list (T A) * list (T A) * nat) (list (T A) * list (T A) + pderr)))
+      (v : list (T A)) :
+  (forall q r count, BODY (q, r, count) =
+      if is_zero r || (length r <? length v) then Ok (WDone (q, r, count)) else
+      let* qr := polydiv_body true q r v in
+      if POLYDIV_MAX <? S count then Ok (WRet (inr EMaxIter)) else Ok (WNext (fst qr, snd qr, S count))) ->
+  forall fuel count q r, fuel + count = S POLYDIV_MAX -> 1 <= fuel ->
+  (let* o := while_ret fuel BODY (q, r, count) in
+   match o with
+   | Some (inl (q_, r_, _)) => Ok (inl (q_, r_))
+   | Some (inr x) => Ok x
+   | None => Ok (inr EMaxIter)
+   end) = polydiv_loop true fuel count q r v.
+Proof.
+  intros HB fuel. induction fuel as [|f IH]; intros count q r Hs Hf; [lia|].
+  cbn [while_ret polydiv_loop]. rewrite HB.
+  destruct (is_zero r || (length r <? length v)); cbn [bind]; [reflexivity|].
+  destruct (polydiv_body true q r v) as [[q' r']|k]; cbn [bind fst snd]; [|reflexivity].
+  destruct (Nat.ltb_spec POLYDIV_MAX (S count)) as [L|L]; cbn [bind]; [reflexivity|].
+  apply IH; lia.
+Qed.
+
+Lemma src_polydiv (u v : list (T A)) : s_polydiv u v = polydiv u v.
+Proof.
+  unfold s_polydiv, polydiv, polydiv_gen.
+  destruct (length v =? 0) eqn:Ev; [reflexivity|]. destruct (is_zero v) eqn:Zv; [reflexivity|].
+  cbv zeta. change 1000 with POLYDIV_MAX.
+  match goal with |- context [while_ret _ ?B _] => set (BODY := B) end.
+  apply (polydiv_loop_eq BODY v); [|lia|lia].
+  intros q r count. subst BODY. cbv beta iota.
+  destruct v as [|v0 v']; [discriminate|]. rewrite !pdegree_cons.
+  destruct (is_zero r) eqn:Zr; cbn [negb orb bind]; [reflexivity|].
+  destruct r as [|r0 r']; [discriminate|]. rewrite !pdegree_cons. cbn [bind length].
+  replace (S (length r') <? S (length v')) with (negb (length v' <=? length r'))
+    by (destruct (Nat.leb_spec (length v') (length r')), (Nat.ltb_spec (S (length r')) (S (length v'))); cbn; lia || reflexivity).
+  destruct (Nat.leb_spec (length v') (length r')) as [L|L]; cbn [negb]; [|reflexivity].
+  unfold polydiv_body. cbn [length].
+  replace (S (length r') - 1) with (length r') by lia. replace (S (length v') - 1) with (length v') by lia.
+  rewrite !(usub_ok (length r') (length v')) by lia. cbn [bind]. rewrite ?bind_assoc.
+  apply bind_ext; intros rl. rewrite ?bind_assoc. apply bind_ext; intros vl. rewrite ?bind_assoc. apply bind_ext; intros c.
+  rewrite upd_repeat_last. cbn [bind]. rewrite ?bind_assoc.
+  apply bind_ext; intros l. rewrite ?bind_assoc. apply bind_ext; intros r2. rewrite ?bind_assoc.
+  apply bind_ext; intros r3. rewrite ?bind_assoc. apply bind_ext; intros q3.
+  cbn [bind fst snd]. rewrite Nat.add_1_r. reflexivity.
 Qed.
 End SrcEqPoly.
